@@ -7,7 +7,8 @@ Model (JSON-serialisable)
             | {"k": "class", "n": name, "doc": bool, "members": [member, ...], "base": name of a sibling class | None (optional)}
             | {"k": "alias", "n": name, "t": "ext" | "int" | "typing"}
     module := {"doc": bool, "members": [member, ...]}            member names are unique inside a container
-    pair   := {"R": module, "S": module}                         R = runtime (.py), S = stubs (.pyi)
+    pair   := {"R": module, "S": module, "W": [member, ...]}     R = runtime (.py), S = stubs (.pyi), W = members the runtime
+                                                                 module gets through `from <top>._impl import *` (optional)
 
 Runtime annotations come from {int, str}, stub annotations from {bytes, float}, docstrings are "R:<qualname>" /
 "S:<qualname>", runtime defaults/values are `1`, stub defaults `...`: the origin of every field of the merged
@@ -139,7 +140,25 @@ def pairs(top: str = "p", internal_aliases: bool = True):
     @st.composite
     def pair(draw):
         rs, ss = draw(container_pair(0))
-        p = {"R": {"doc": draw(st.booleans()), "members": rs}, "S": {"doc": draw(st.booleans()), "members": ss}}
+        # members the runtime module only gets through `from <top>._impl import *` (defined in the private sibling
+        # module), with stubs declaring them at the public location
+        ws = []
+        free = [n for n in POOL if n not in {m["n"] for m in rs} | {m["n"] for m in ss}]
+        if free and draw(st.booleans()):
+            for n in draw(st.lists(st.sampled_from(free), unique=True, min_size=1, max_size=2)):
+                w = draw(single(n, "R", 2, kinds=("func", "func", "attr")))
+                if draw(st.integers(0, 3)) == 0:
+                    inner = draw(st.lists(st.sampled_from(POOL), unique=True, max_size=3))
+                    w = {"k": "class", "n": n, "doc": draw(st.booleans()), "members": [draw(single(i, "R", 2, kinds=("func", "attr"))) for i in inner]}
+                ws.append(w)
+                rel = draw(st.sampled_from(["same"] * 6 + ["diff", "alias", "none", "none"]))
+                if rel == "same":
+                    ss.append(draw(single(n, "S", 1, kinds=(w["k"],))))
+                elif rel == "diff":
+                    ss.append(draw(single(n, "S", 1, kinds=tuple(x for x in ("func", "attr", "class") if x != w["k"]))))
+                elif rel == "alias":
+                    ss.append(draw(alias(n)))
+        p = {"R": {"doc": draw(st.booleans()), "members": rs}, "S": {"doc": draw(st.booleans()), "members": ss}, "W": ws}
         return normalise(p)
 
     return pair()
@@ -163,7 +182,7 @@ def normalise(pair: dict) -> dict:
                 names = frozenset(x["n"] for x in base["members"]) if base is not None and base["k"] == "class" else frozenset()
                 rec(rm["members"] if is_class else None, m["members"], names)
 
-    rec(pair["R"]["members"], pair["S"]["members"])
+    rec(pair["R"]["members"] + pair.get("W", []), pair["S"]["members"])
     return pair
 
 
@@ -183,7 +202,7 @@ def internal_alias_collisions(pair: dict) -> list[list[str]]:
             if r["k"] == "class" and s["k"] == "class":
                 rec(r["members"], s["members"], [*path, r["n"]])
 
-    rec(pair["R"]["members"], pair["S"]["members"], [])
+    rec(pair["R"]["members"] + pair.get("W", []), pair["S"]["members"], [])
     return out
 
 
@@ -191,10 +210,31 @@ def steer_internal_aliases(pair: dict) -> tuple[dict, int]:
     """Turn every colliding internal runtime alias into an external one (returns the pair and how many)."""
     hits = internal_alias_collisions(pair)
     for path in hits:
-        members = pair["R"]["members"]
+        members = pair["R"]["members"] + pair.get("W", [])
         for name in path[:-1]:
             members = next(m for m in members if m["n"] == name)["members"]
         next(m for m in members if m["n"] == path[-1])["t"] = "ext"
+    return pair, len(hits)
+
+
+def stub_only_in_wildcard_classes(pair: dict) -> list[tuple[str, str]]:
+    """(class name, member name) of every member the stubs add to a class that the runtime module only has through
+    its wildcard import (pair["W"])."""
+    s_by = {m["n"]: m for m in pair["S"]["members"]}
+    out = []
+    for w in pair.get("W", []):
+        sm = s_by.get(w["n"])
+        if w["k"] == "class" and sm is not None and sm["k"] == "class":
+            own = {m["n"] for m in w["members"]}
+            out += [(w["n"], m["n"]) for m in sm["members"] if m["n"] not in own and not (m["k"] == "func" and not m.get("impl", True))]
+    return out
+
+
+def steer_stub_only_in_wildcard_classes(pair: dict) -> tuple[dict, int]:
+    hits = stub_only_in_wildcard_classes(pair)
+    for cls, name in hits:
+        sm = next(m for m in pair["S"]["members"] if m["n"] == cls)
+        sm["members"] = [m for m in sm["members"] if m["n"] != name]
     return pair, len(hits)
 
 
@@ -208,10 +248,22 @@ def overload_signatures(m: dict) -> list:
     return [[[[p[0], S_ANN[i % len(S_ANN)]] for p in m["params"]], S_ANN[i % len(S_ANN)]] for i in range(m.get("ov", 0))]
 
 
-def render_module(mod: dict, side: str, top: str) -> str:
+IMPL = "_impl"
+
+
+def render_impl(pair: dict, top: str) -> str:
+    """The private sibling module defining the wildcard-provided members."""
+    lines: list[str] = []
+    _render_members(pair.get("W", []), "R", top, "", "", lines)
+    return "\n".join(lines) + "\n"
+
+
+def render_module(mod: dict, side: str, top: str, wildcard: bool = False) -> str:
     lines: list[str] = []
     if mod["doc"]:
         lines.append(f'"""{side}:module"""')
+    if wildcard:
+        lines.append(f"from {top}.{IMPL} import *")
     if side == "S" and has_overloads(mod["members"]):
         lines.append("from typing import overload")
     _render_members(mod["members"], side, top, "", "", lines)
@@ -339,10 +391,15 @@ def _merge_container(r_members: list, s_members: list, qual: str) -> dict:
     return out
 
 
-def expected(pair: dict) -> dict:
-    """The merged module the statement describes."""
+def expected(pair: dict, wildcard: bool = False, top: str = "p") -> dict:
+    """The merged module the statement describes. With `wildcard` the runtime module also has the members of
+    pair["W"] (through `from <top>._impl import *`): each is an alias to `<top>._impl.<name>`, resolved by the
+    expansion (not by merging), whose target ("via") is merged with the stubs like any runtime member."""
     r, s = pair["R"], pair["S"]
-    members = _merge_container(r["members"], s["members"], "")
+    ws = pair.get("W", []) if wildcard else []
+    members = _merge_container(r["members"] + ws, s["members"], "")
+    for w in ws:
+        members[w["n"]] = {"kind": "alias", "target": f"{top}.{IMPL}.{w['n']}", "resolved": True, "runtime": True, "via": members[w["n"]]}
     if has_overloads(s["members"]) and "overload" not in members:
         members["overload"] = {"kind": "alias", "target": "typing.overload", "resolved": False, "runtime": False}
     return {"doc": "R:module" if r["doc"] else ("S:module" if s["doc"] else None), "members": members}
@@ -365,7 +422,10 @@ def observe(module, skip: tuple = ()) -> dict:
 
     def member(o) -> dict:
         if o.is_alias:
-            return {"kind": "alias", "target": o.target_path, "resolved": o.resolved, "runtime": o.runtime}
+            rec = {"kind": "alias", "target": o.target_path, "resolved": o.resolved, "runtime": o.runtime}
+            if o.resolved and not o.target.is_alias:
+                rec["via"] = member(o.target)  # already resolved: reading the target resolves nothing
+            return rec
         k = o.kind.value
         if k == "attribute":
             return {"kind": k, "ann": text(o.annotation), "value": text(o.value), "doc": doc(o), "runtime": o.runtime, "ov": sigs(getattr(o, "overloads", None))}
@@ -427,6 +487,12 @@ def compare(exp: dict, got: dict) -> list[tuple[str, str, str]]:
             if field == "runtime" and e[field] is None:
                 continue
             if field == "target" and e[field] is None:
+                continue
+            if field == "via":
+                if "via" not in g:
+                    out.append(("member-lost:runtime:wildcard-target", path, f"{path}: the alias is not resolved to its wildcard-imported target"))
+                else:
+                    one(e["via"], g["via"], path + "->")
                 continue
             if field == "params":
                 en, gn = [p[0] for p in e[field]], [p[0] for p in g[field]]
@@ -499,6 +565,10 @@ def labels(pair: dict) -> set[str]:
                 out.add(f"stub-only:{s['k']}")
         return n_overlap
 
+    s_top = {m["n"]: m for m in pair["S"]["members"]}
+    for w in pair.get("W", []):
+        sm_ = s_top.get(w["n"])
+        out.add("wildcard-member:" + ("no-stub" if sm_ is None else "stub-alias" if sm_["k"] == "alias" else "same-kind:" + w["k"] if sm_["k"] == w["k"] else "kind-mismatch"))
     n = rec(pair["R"]["members"], pair["S"]["members"], 0)
     out.add(f"overlap:{min(n, 3)}{'+' if n >= 3 else ''}")
     return out
